@@ -426,7 +426,7 @@ func stress() {
 		if warm {
 			arr.AddCount(base.MetricEventPass, 0)
 		}
-		var total, maxRead int64
+		var total, maxRead, progress int64
 		var wg sync.WaitGroup
 		const G, K = 32, 400
 		for g := 0; g < G; g++ {
@@ -443,25 +443,46 @@ func stress() {
 								break
 							}
 						}
+						atomic.AddInt64(&progress, 1)
 						continue
 					}
 					atomic.AddInt64(&total, 1)
 					arr.AddCount(base.MetricEventPass, 1)
+					atomic.AddInt64(&progress, 1)
 				}
 			}()
 		}
 		doneCh := make(chan struct{})
 		go func() { wg.Wait(); close(doneCh) }()
-		select {
-		case <-doneCh:
-		case <-time.After(90 * time.Second):
-			// the phase normally takes milliseconds
+		// the phase normally takes milliseconds. Hang detection is by progress, not by a deadline: the phase is given up
+		// only when NO operation completed during 60 consecutive seconds (a loaded machine slows everything down but does
+		// not stop it); what the stuck goroutines are doing decides between violated and inconclusive
+		hung := false
+		for last, still := int64(-1), 0; !hung; {
+			select {
+			case <-doneCh:
+				still = -1
+			case <-time.After(30 * time.Second):
+				if cur := atomic.LoadInt64(&progress); cur == last {
+					still++
+				} else {
+					last, still = cur, 0
+				}
+			}
+			if still < 0 {
+				break
+			}
+			if still >= 2 {
+				hung = true
+			}
+		}
+		if hung {
 			buf := make([]byte, 1<<22)
 			buf = buf[:runtime.Stack(buf, true)]
 			if n := strings.Count(string(buf), "currentBucketOfTime"); n > 0 {
-				run.Violation("C09/stress:non-termination", fmt.Sprintf("phase %d (%dx%dms): %d goroutines are still inside currentBucketOfTime 90 s after the phase started (it takes milliseconds): recorders / readers do not terminate", r, N, L, n), map[string]interface{}{"phase": r, "n": N, "l": L})
+				run.Violation("C09/stress:non-termination", fmt.Sprintf("phase %d (%dx%dms): no operation completed for 60 s and %d goroutines are inside currentBucketOfTime: recorders / readers do not terminate", r, N, L, n), map[string]interface{}{"phase": r, "n": N, "l": L})
 			} else {
-				run.Inconclusive("stress phase did not finish within 90 s but no goroutine is inside currentBucketOfTime")
+				run.Inconclusive("stress phase made no progress for 60 s but no goroutine is inside currentBucketOfTime")
 			}
 			return
 		}
